@@ -781,6 +781,142 @@ Definition accept_sequence (items : list dval) : res unit :=
   bind (discard (mapM (accept None) items)) (fun _ => discard (mapM rel_present items)).
 
 (* ------------------------------------------------------------------ *)
+(* two-phase parsing, faithful about error precedence: X.from_dataset /
+   from_sequence run ALL their checks over the whole tree first ([accept]);
+   only then are accessors read, per node in the order relationship_type,
+   children, name, value ([read]).  [parse2] = [accept] then [read];
+   C13_Proofs_Seq.parse_two_phase: it succeeds exactly when [parse] does,
+   with the same item. *)
+Definition read_body (c : option ctag) (a : attrs) (kids : option (res (list item))) : res item :=
+  bind (match c with Some c => Ok c | None => check_and_dispatch a end) (fun c =>
+  bind (read_rel a) (fun rel =>
+  bind (match kids with None => Ok [] | Some r => r end) (fun ks =>
+  bind (match lookup "ConceptNameCodeSequence" a with
+        | Some s => code_first s
+        | None => Ok default_name       (* inserted by _from_dataset_base *)
+        end) (fun name =>
+  bind (read_value c a) (fun v =>
+  Ok (Item c name rel v ks)))))).
+
+Fixpoint read (c : option ctag) (d : dval) {struct d} : res item :=
+  match d with
+  | DSet a =>
+      read_body c a
+        ((fix find (l : attrs) : option (res (list item)) :=
+            match l with
+            | [] => None
+            | (k, v) :: l' =>
+                if String.eqb k "ContentSequence" then
+                  Some (match v with
+                        | DSeq items =>
+                            (fix go (is : list dval) : res (list item) :=
+                               match is with
+                               | [] => Ok []
+                               | i :: is' => bind (read None i) (fun x =>
+                                             bind (go is') (fun xs => Ok (x :: xs)))
+                               end) items
+                        | _ => Err EType
+                        end)
+                else find l'
+            end) a)
+  | _ => Err EType
+  end.
+
+Definition parse2 (c : option ctag) (d : dval) : res item :=
+  bind (accept c d) (fun _ => read c d).
+Definition from_sequence2 (items : list dval) : res (list item) :=
+  bind (accept_sequence items) (fun _ => mapM (read None) items).
+
+(* ------------------------------------------------------------------ *)
+(* ContentSequence: the three kinds of sequence (is_root, is_sr)         *)
+Inductive smode := MRoot | MSr | MCtx.
+
+(* ContentSequence.__init__: is_root and not is_sr -> ValueError *)
+Definition mode_of (is_root is_sr : bool) : res smode :=
+  match is_root, is_sr with
+  | true, true => Ok MRoot
+  | true, false => Err EValue
+  | false, true => Ok MSr
+  | false, false => Ok MCtx
+  end.
+
+Definition is_container (c : ctag) : bool :=
+  match c with ContainerContentItem => true | _ => false end.
+
+(* the rule of ContentSequence._check_item on (relationship_type, class) *)
+Definition mode_rule (m : smode) (r : option reltype) (c : ctag) : res unit :=
+  match m with
+  | MRoot => match r with
+             | Some _ => Err EAttr
+             | None => if is_container c then Ok tt else Err EType
+             end
+  | MSr => match r with Some _ => Ok tt | None => Err EAttr end
+  | MCtx => match r with Some _ => Err EAttr | None => Ok tt end
+  end.
+
+Definition check_item (m : smode) (i : item) : res unit := mode_rule m (i_rel i) (i_cls i).
+
+(* ContentSequence._check_dataset(is_root, is_sr) + class dispatch *)
+Definition dispatch_m (m : smode) (a : attrs) : res ctag :=
+  match lookup "ValueType" a with
+  | None => Err EAttr
+  | Some (DStr s) =>
+      match vt_of_str s with
+      | None => Err EValue
+      | Some v =>
+          if (match m with MSr => true | _ => false end) && negb (has "RelationshipType" a)
+          then Err EAttr else get_class v
+      end
+  | Some _ => Err EValue
+  end.
+
+(* one dataset of from_sequence(..., is_root, is_sr): check, dispatch,
+   from_dataset of the dispatched class (nested sequences are always parsed
+   with the default flags) *)
+Definition accept_item_m (m : smode) (d : dval) : res ctag :=
+  match d with
+  | DSet a => bind (dispatch_m m a) (fun c => bind (accept (Some c) d) (fun _ => Ok c))
+  | _ => Err EType
+  end.
+
+(* ContentSequence.__init__ on the parsed items: relationship_type is read
+   (ValueError for a string outside the enumeration) and judged by the mode *)
+Definition present_m (m : smode) (cd : ctag * dval) : res unit :=
+  match snd cd with
+  | DSet a => bind (read_rel a) (fun r => mode_rule m r (fst cd))
+  | _ => Err EType
+  end.
+
+Definition accept_sequence_m (m : smode) (items : list dval) : res (list ctag) :=
+  bind (mapM (accept_item_m m) items) (fun cs =>
+  bind (mapM (present_m m) (combine cs items)) (fun _ => Ok cs)).
+
+Definition from_sequence_m (m : smode) (items : list dval) : res (list item) :=
+  bind (accept_sequence_m m items) (fun cs =>
+  mapM (fun cd => read (Some (fst cd)) (snd cd)) (combine cs items)).
+
+(* ------------------------------------------------------------------ *)
+(* ContentSequence as a mutable container.  [q_items] is the list itself,
+   [q_log] the name look-up table: self._lut is a dict of lists keyed by the
+   item name, always appended at the end - represented here by the single
+   insertion log, _lut[k] = the entries of the log whose name has key k.     *)
+Record cseq := CSeq { q_mode : smode; q_items : list item; q_log : list item }.
+
+(* Code.__eq__ : value, scheme designator and scheme version (the meaning is
+   ignored; the SRT -> SCT mapping of pydicom is not modelled) *)
+Definition ostr_eqb (a b : option string) : bool :=
+  match a, b with
+  | Some x, Some y => String.eqb x y
+  | None, None => true
+  | _, _ => false
+  end.
+Definition key_eqb (a b : code) : bool :=
+  String.eqb (c_value a) (c_value b) && String.eqb (c_scheme a) (c_scheme b)
+  && ostr_eqb (c_version a) (c_version b).
+Definition named (n : code) (i : item) : bool := key_eqb n (i_name i).
+Definition has_kids (i : item) : bool := match i_kids i with [] => false | _ => true end.
+
+(* ------------------------------------------------------------------ *)
 (* boundary: rendering as [val]                                         *)
 Definition vstr_opt (o : option string) : val := vopt VS o.
 Definition obs_code (c : code) : val :=
@@ -873,3 +1009,232 @@ Definition run_scoord (g : g2) (pts : list (list Q)) : val :=
   vres (fun _ => VB true) (scoord_check g pts).
 Definition run_scoord3d (g : g3) (pts : list (list Q)) : val :=
   vres (fun _ => VB true) (scoord3d_check g pts).
+
+(* ------------------------------------------------------------------ *)
+(* ContentSequence operations.  Dataset.__eq__ is equality of content:
+   two items are equal iff all their observations are, code meanings apart
+   ([val_beq] is the structural equality of [val]).                       *)
+Fixpoint val_beq (a b : val) {struct a} : bool :=
+  match a, b with
+  | VZ x, VZ y => Z.eqb x y
+  | VB x, VB y => Bool.eqb x y
+  | VNone, VNone => true
+  | VS x, VS y => String.eqb x y
+  | VQ x, VQ y => Z.eqb (Qnum x) (Qnum y) && Pos.eqb (Qden x) (Qden y)
+  | VErr x, VErr y => String.eqb x y
+  | VL xs, VL ys =>
+      (fix go (xs ys : list val) {struct xs} : bool :=
+         match xs, ys with
+         | [], [] => true
+         | x :: xs', y :: ys' => val_beq x y && go xs' ys'
+         | _, _ => false
+         end) xs ys
+  | _, _ => false
+  end.
+
+(* CodedConcept.__eq__ ignores the code meaning, hence so does the equality
+   of the datasets that contain coded concepts *)
+Definition blank_code (c : code) : code := Code (c_value c) (c_scheme c) "" (c_version c).
+Definition blank_value (v : value) : value :=
+  match v with
+  | VCode c => VCode (blank_code c)
+  | VNum q f u ql => VNum q f (blank_code u)
+                       (match ql with Some c => Some (blank_code c) | None => None end)
+  | _ => v
+  end.
+Fixpoint blank (t : item) : item :=
+  match t with
+  | Item c n r v ks => Item c (blank_code n) r (blank_value v) (map blank ks)
+  end.
+Definition item_eqb (a b : item) : bool := val_beq (obs_item (blank a)) (obs_item (blank b)).
+
+(* seq[idx] for an int: IndexError outside -n <= idx < n *)
+Definition norm_idx (n k : Z) : option nat :=
+  if (k <? - n) || (n <=? k) then None else Some (Z.to_nat (if k <? 0 then k + n else k)).
+(* slice bound / list.insert position: clamped *)
+Definition clamp (n k : Z) : nat :=
+  Z.to_nat (if k <? 0 then Z.max 0 (k + n) else Z.min k n).
+Definition insert_at {A} (k : nat) (x : A) (l : list A) : list A := firstn k l ++ x :: skipn k l.
+Definition splice {A} (lo hi : nat) (mid l : list A) : list A := firstn lo l ++ mid ++ skipn hi l.
+
+(* del lst[lst.index(x)] ; None = ValueError of list.index *)
+Fixpoint remove_first {A} (p : A -> bool) (l : list A) : option (list A) :=
+  match l with
+  | [] => None
+  | x :: l' => if p x then Some l'
+               else match remove_first p l' with Some r => Some (x :: r) | None => None end
+  end.
+Fixpoint log_remove (olds log : list item) : option (list item) :=
+  match olds with
+  | [] => Some log
+  | o :: os => match remove_first (item_eqb o) log with
+               | None => None
+               | Some log' => log_remove os log'
+               end
+  end.
+
+Fixpoint find_index {A} (p : A -> bool) (l : list A) : option Z :=
+  match l with
+  | [] => None
+  | x :: l' => if p x then Some 0
+               else match find_index p l' with Some k => Some (k + 1) | None => None end
+  end.
+
+Definition seq_new (m : smode) (items : list item) : res cseq :=
+  bind (mapM (check_item m) items) (fun _ => Ok (CSeq m items items)).
+
+Inductive sop :=
+| OAppend (i : item) | OInsert (pos : Z) (i : item) | OSet (idx : Z) (i : item) | ODel (idx : Z)
+| OExtend (l : list item) | OSetSlice (lo hi : Z) (l : list item) | ODelSlice (lo hi : Z).
+
+Definition seq_append (s : cseq) (i : item) : cseq :=
+  CSeq (q_mode s) (q_items s ++ [i]) (q_log s ++ [i]).
+
+(* extend appends item by item: a refused item leaves the earlier ones in *)
+Fixpoint seq_extend (s : cseq) (l : list item) : cseq * res unit :=
+  match l with
+  | [] => (s, Ok tt)
+  | i :: l' => match check_item (q_mode s) i with
+               | Err e => (s, Err e)
+               | Ok _ => seq_extend (seq_append s i) l'
+               end
+  end.
+
+(* the state after the call, and how the call ended *)
+Definition seq_step (s : cseq) (o : sop) : cseq * res unit :=
+  let m := q_mode s in let its := q_items s in let lg := q_log s in let n := len its in
+  match o with
+  | OAppend i =>
+      match check_item m i with Err e => (s, Err e) | Ok _ => (seq_append s i, Ok tt) end
+  | OInsert pos i =>
+      match check_item m i with
+      | Err e => (s, Err e)
+      | Ok _ => (CSeq m (insert_at (clamp n pos) i its) (lg ++ [i]), Ok tt)
+      end
+  | OSet idx i =>
+      match norm_idx n idx with
+      | None => (s, Err EIndex)
+      | Some k =>
+          match check_item m i with
+          | Err e => (s, Err e)
+          | Ok _ =>
+              let its' := splice k (S k) [i] its in
+              match log_remove (firstn 1 (skipn k its)) lg with
+              | None => (CSeq m its' lg, Err EValue)
+              | Some lg' => (CSeq m its' (lg' ++ [i]), Ok tt)
+              end
+          end
+      end
+  | ODel idx =>
+      match norm_idx n idx with
+      | None => (s, Err EIndex)
+      | Some k =>
+          match log_remove (firstn 1 (skipn k its)) lg with
+          | None => (s, Err EValue)
+          | Some lg' => (CSeq m (splice k (S k) [] its) lg', Ok tt)
+          end
+      end
+  | OExtend l => seq_extend s l
+  | OSetSlice lo hi l =>
+      let a := clamp n lo in let b := Nat.max a (clamp n hi) in
+      match mapM (check_item m) l with
+      | Err e => (s, Err e)
+      | Ok _ =>
+          let its' := splice a b l its in
+          match log_remove (firstn (b - a) (skipn a its)) lg with
+          | None => (CSeq m its' lg, Err EValue)
+          | Some lg' => (CSeq m its' (lg' ++ l), Ok tt)
+          end
+      end
+  | ODelSlice lo hi =>
+      let a := clamp n lo in let b := Nat.max a (clamp n hi) in
+      match log_remove (firstn (b - a) (skipn a its)) lg with
+      | None => (s, Err EValue)
+      | Some lg' => (CSeq m (splice a b [] its) lg', Ok tt)
+      end
+  end.
+
+Fixpoint seq_run (s : cseq) (ops : list sop) : cseq * list (res unit) :=
+  match ops with
+  | [] => (s, [])
+  | o :: ops' => let '(s1, r) := seq_step s o in
+                 let '(s2, rs) := seq_run s1 ops' in (s2, r :: rs)
+  end.
+
+(* find(name) = ContentSequence(self._lut[name], is_root, is_sr) *)
+Definition seq_find (s : cseq) (n : code) : res (list item) :=
+  let sel := filter (named n) (q_log s) in
+  bind (mapM (check_item (q_mode s)) sel) (fun _ => Ok sel).
+(* get_nodes() *)
+Definition seq_nodes (s : cseq) : res (list item) :=
+  let sel := filter has_kids (q_items s) in
+  bind (mapM (check_item (q_mode s)) sel) (fun _ => Ok sel).
+(* index(val): ValueError unless the table of val.name holds an equal item *)
+Definition seq_index (s : cseq) (v : item) : res Z :=
+  if existsb (item_eqb v) (filter (named (i_name v)) (q_log s)) then
+    match find_index (item_eqb v) (q_items s) with Some k => Ok k | None => Err EValue end
+  else Err EValue.
+Definition seq_contains (s : cseq) (v : item) : bool :=
+  match seq_index s v with Ok _ => true | Err _ => false end.
+
+(* kind 'seqops' *)
+Definition vitems (l : list item) : val := VL (map obs_item l).
+Definition run_seqops (is_root is_sr : bool) (init : list item) (ops : list sop)
+    (names : list code) (probes : list item) : val :=
+  match bind (mode_of is_root is_sr) (fun m => seq_new m init) with
+  | Err k => VErr k
+  | Ok s0 =>
+      let '(s, rs) := seq_run s0 ops in
+      VL [VL (map vstatus rs); vitems (q_items s);
+          VL (map (fun n => vres vitems (seq_find s n)) names);
+          vres vitems (seq_nodes s);
+          VL (map (fun v => VL [vres VZ (seq_index s v); VB (seq_contains s v)]) probes)]
+  end.
+
+(* kind 'seqmode': ContentSequence(items, is_root, is_sr) and
+   from_sequence(datasets, is_root, is_sr) on the serialised items *)
+Definition run_seqmode (is_root is_sr : bool) (items : list item) : val :=
+  match mode_of is_root is_sr with
+  | Err k => VL [VErr k; VErr k]
+  | Ok m =>
+      VL [vstatus (discard (seq_new m items));
+          vres vitems (from_sequence_m m (map to_ds items))]
+  end.
+
+(* kind 'malformed' with several faults: the two-phase functions *)
+Definition run_parse2 (c : ctag) (d : dval) : val :=
+  VL [vstatus (accept (Some c) d); vres obs_item (parse2 (Some c) d);
+      vstatus (accept_sequence [d]); vres vitems (from_sequence2 [d])].
+
+(* ------------------------------------------------------------------ *)
+(* the template content items of sr/content.py (ImageRegion, FindingSite,
+   SourceImageFor..., ...: subclasses of a value-type class [parent]).  Their
+   from_dataset calls ContentItem._from_dataset_base directly: Value Type
+   present, concept name required (their class names are not in the
+   optional-name tuple), children through from_sequence, name converted; no
+   conversion of the value's coded concepts.  [asserts] = "this from_dataset
+   calls _assert_value_type(dataset_copy, <value type of parent>) first", read
+   off the source on every run (true for all twelve since defect D103 was
+   fixed; false before).                                                    *)
+Definition sub_kids (a : attrs) : option (res unit) :=
+  match lookup "ContentSequence" a with
+  | None => None
+  | Some (DSeq items) => Some (bind (discard (mapM (accept None) items))
+                                    (fun _ => discard (mapM rel_present items)))
+  | Some _ => Some (Err EType)
+  end.
+
+Definition accept_sub (asserts : bool) (parent : ctag) (d : dval) : res unit :=
+  match d with
+  | DSet a =>
+      bind (if asserts then assert_value_type (class_vt parent) a else Ok tt) (fun _ =>
+      bind (if has "ValueType" a then Ok tt else Err EAttr) (fun _ =>
+      bind (get "ConceptNameCodeSequence" a) (fun s =>
+      bind (match sub_kids a with None => Ok tt | Some r => r end) (fun _ =>
+      discard (code_first s)))))
+  | _ => Err EType
+  end.
+
+(* kind 'subclass' *)
+Definition run_sub (asserts : bool) (parent : ctag) (d : dval) : val :=
+  vstatus (accept_sub asserts parent d).
